@@ -145,7 +145,28 @@ def fam_early_return(n):
     return pt.Return(pt.Int(5) + find(pt.Int(n)) == pt.Int(5 + exp)), 4
 
 
+def fam_rec_byref_local(n):
+    """a RECURSIVE routine whose local variable is handed by reference to another routine (its index is taken), is live across
+    the re-entering call and read afterwards; plus a DynamicScratchVar cursor on a second local"""
+    @pt.Subroutine(pt.TealType.none)
+    def bump(v: pt.ScratchVar):
+        return v.store(v.load() + pt.Int(1))
+
+    @pt.Subroutine(pt.TealType.uint64)
+    def f(k):
+        acc = pt.ScratchVar(pt.TealType.uint64)
+        other = pt.ScratchVar(pt.TealType.uint64)
+        cur = pt.DynamicScratchVar(pt.TealType.uint64)
+        return pt.Seq(acc.store(k), other.store(k * pt.Int(3)), bump(acc), cur.set_index(other), cur.store(cur.load() + pt.Int(2)),
+                      pt.If(k == pt.Int(0)).Then(pt.Return(pt.Int(0))), f(k - pt.Int(1)) + acc.load() + other.load())
+
+    def py(k):
+        return 0 if k == 0 else py(k - 1) + (k + 1) + (3 * k + 2)
+    return pt.Return(f(pt.Int(n)) == pt.Int(py(n))), 5
+
+
 FAMILIES = {
+    "rec_byref_local": (fam_rec_byref_local, [0, 1, 3]),
     "fact": (fam_fact, [0, 1, 5]),
     "fib_locals": (fam_fib_locals, [0, 1, 2, 7]),
     "pending_operands": (fam_pending_operands, [0, 1, 4]),
